@@ -139,7 +139,7 @@ def bezier_pts(draw, deg, scale=1.0, classes=None):
     """Control points of a degree-`deg` Bezier, with a class tag.
     Returns (tag, [points])."""
     classes = classes or ['generic', 'generic', 'generic', 'collinear', 'foldback',
-                          'repeat_start', 'repeat_end', 'repeat_mid', 'elevated', 'axis', 'symmetric']
+                          'repeat_start', 'repeat_end', 'repeat_mid', 'elevated', 'axis', 'symmetric', 'nearlinear']
     tag = draw(st.sampled_from(classes))
     n = deg + 1
     pt = point(scale)
@@ -195,6 +195,16 @@ def bezier_pts(draw, deg, scale=1.0, classes=None):
             pts = [a, [(a[0] + b[0]) / 2, (a[1] + b[1]) / 2], b]
         else:
             pts = [draw(pt) for _ in range(n)]
+    elif tag == 'nearlinear':
+        # evenly spaced points on a line (constant speed) plus a perturbation of relative size 1e-3..1e-14
+        a, b = draw(pt), draw(pt)
+        if a == b:
+            b = [b[0] + scale, b[1] + scale / 3]
+        pts = [[a[0] + (b[0] - a[0]) * i / float(deg), a[1] + (b[1] - a[1]) * i / float(deg)] for i in range(n)]
+        k = 10.0 ** -draw(st.integers(3, 14))
+        j = draw(st.integers(1, max(1, deg - 1))) if deg > 1 else 1
+        q = draw(pt)
+        pts[j] = [pts[j][0] + k * q[0], pts[j][1] + k * q[1]]
     elif tag == 'axis':
         pts = [draw(pt) for _ in range(n)]
         if draw(st.booleans()):
